@@ -43,6 +43,21 @@ func firstLine(s string) string {
 	return ""
 }
 
+func runOne(s solverSpec, file string, timeoutS int) solveResult {
+	ctx, cancel := context.WithTimeout(context.Background(), time.Duration(timeoutS+2)*time.Second)
+	defer cancel()
+	t0 := time.Now()
+	argv := s.argv(file, timeoutS)
+	out, _ := exec.CommandContext(ctx, argv[0], argv[1:]...).CombinedOutput()
+	fl := firstLine(string(out))
+	res := solveResult{verdict: "unknown", solver: s.name, ms: time.Since(t0).Milliseconds(), output: string(out), all: map[string]string{}}
+	if fl == "unsat" || fl == "sat" {
+		res.verdict = fl
+	}
+	res.all[s.name] = res.verdict
+	return res
+}
+
 // raceSolvers runs the installed solvers on file; first definitive answer wins.
 func raceSolvers(file string, timeoutS int, useAll bool) solveResult {
 	ctx, cancel := context.WithTimeout(context.Background(), time.Duration(timeoutS+5)*time.Second)
@@ -215,7 +230,14 @@ func discharge(obls []*Oblig, workdir string, timeoutS, retryS int, useAll bool,
 			f := filepath.Join(workdir, sanitize(o.Name)+".smt2")
 			os.WriteFile(f, []byte(script), 0o644)
 			o.SmtFile = f
-			r := raceSolvers(f, timeoutS, useAll)
+			var r solveResult
+			if !useAll {
+				// stage 1: the fastest back end alone with a short budget
+				r = runOne(solvers[0], f, 3)
+			}
+			if useAll || r.verdict == "unknown" {
+				r = raceSolvers(f, timeoutS, useAll)
+			}
 			if r.verdict == "unknown" && retryS > timeoutS {
 				r = raceSolvers(f, retryS, useAll)
 			}
